@@ -131,6 +131,13 @@ def run(ctx):
                         lo_, hi_ = int_bounds(atomic_facts(ctor, prog, cb[-1]), lp[0])
                         if lo_ is not None and hi_ is not None and 1 <= lo_ and hi_ <= 64:
                             alts = (want,)
+                def nocast(t_):
+                    if not isinstance(t_, tuple):
+                        return t_
+                    if t_ and t_[0] == "cast" and len(t_) == 3:
+                        return nocast(t_[2])
+                    return tuple(nocast(y_) for y_ in t_)
+                alts = tuple(want if nocast(x) == want else x for x in alts)      # `1u64.checked_shl(l as u32)`: the width of the shift amount is immaterial
                 for x in alts:
                     if x == want:
                         continue
